@@ -501,7 +501,10 @@ func (rw *regWorld) identityKey() string {
 	for _, x := range pw {
 		writers += fmt.Sprintf(" %s:%s>%s=%d", x.peer, x.c, x.s, x.v)
 	}
-	return " replaced=" + strings.Join(s, ",") + fmt.Sprintf(" uc=%d", rw.m.uc) + shape + " writers=[" + writers + "]"
+	// the ids of the registry entries, as ranks, in the order the registries hold them: how ids are handed out later may
+	// depend on which ids are in use and where they stand (for a counter that only grows this adds nothing to the key)
+	ids := spine.VerifRegistryOrder(rw.w.L)
+	return " replaced=" + strings.Join(s, ",") + fmt.Sprintf(" uc=%d", rw.m.uc) + shape + " writers=[" + writers + "] ids=" + ids
 }
 
 // expectation for the outbound trace of one operation
@@ -1062,6 +1065,7 @@ func regDriver(name string, alphabet []string, events, approval bool, extra func
 	return &engine.HDriver{Name: name, Alphabet: alphabet, Step: func(hist []string, op string) engine.HStep {
 		rw := newRegWorldG(events, approval, nested, generic)
 		rw.evOn = events
+		c08LastWorld = rw
 		rt.WaitIdle()
 		for _, h := range hist {
 			rw.apply(h, false)
